@@ -37,6 +37,7 @@ package symbols
 //@      && ast.StringBound != ast.BytesBound && ast.StringBound != ast.TimeBound && ast.StringBound != ast.DurationBound
 //@      && ast.BytesBound != ast.TimeBound && ast.BytesBound != ast.DurationBound && ast.TimeBound != ast.DurationBound
 
+//@ spec func isBuiltinBase0(t ast.Constant) bool = true
 // Each documented base type has exactly the constants of its kind as members.
 //@ func hasBaseType(typeExpr, c)
 //@   requires basesDistinct()
@@ -49,3 +50,20 @@ package symbols
 //@   ensures typeExpr == ast.BytesBound ==> result == (c.Type == ast.BytesType)
 //@   ensures typeExpr == ast.TimeBound ==> result == (c.Type == ast.TimeType)
 //@   ensures typeExpr == ast.DurationBound ==> result == (c.Type == ast.DurationType)
+//@   ensures !isBuiltinBase(typeExpr) ==> result == nameMember(typeExpr, c)
+
+//@ spec func isBuiltinBase(t ast.Constant) bool = t == ast.AnyBound || t == ast.Float64Bound || t == ast.NameBound || t == ast.NumberBound
+//@      || t == ast.StringBound || t == ast.BytesBound || t == ast.TimeBound || t == ast.DurationBound
+// A user-defined name type /a/b has the names that extend it by further parts as members.
+//@ spec func nameMember(t ast.Constant, c ast.Constant) bool = t.Type == ast.NameType && c.Type == ast.NameType && strings.isPrefix(t.Symbol + "/", c.Symbol)
+
+// Conformance between two user-defined name types is sound for membership: when it is affirmed by the prefix rule
+// (the sites that answer by equality, /any, /bot or /name are excluded here), every member of left is a member of right.
+//@ func TypeConforms(ctx, left, right)
+//@   opt perreturn
+//@   opt nosafety
+//@   requires basesDistinct()
+//@   ensures result && (left is ast.Constant) && (right is ast.Constant)
+//@             && !ast.termEq(left, right) && !ast.termEq(right, ast.AnyBound) && !ast.termEq(left, ast.BotBound) && !ast.termEq(right, ast.NameBound)
+//@             && !isBuiltinBase(left as ast.Constant) && !isBuiltinBase(right as ast.Constant)
+//@             ==> (forall c ast.Constant :: nameMember(left as ast.Constant, c) ==> nameMember(right as ast.Constant, c))
